@@ -1,4 +1,5 @@
 import Mdsort.Proofs.Lex
+import Mdsort.Proofs.LexLiteral
 import Mdsort.Proofs.World
 import Mdsort.Proofs.ConfErrors
 import Mdsort.Proofs.ConfRT5
@@ -50,11 +51,38 @@ theorem C14_tokens_read_back :
   ⟨fun sflag kw tokname rest hk hr => Proofs.lex_keyword sflag kw tokname rest hk hr,
    fun pflag sflag b rest h1 h2 h3 h4 => Proofs.lex_string_roundtrip pflag sflag b rest h1 h2 h3 h4⟩
 
-/-- Age literals: below 2^32 read back exactly, at or above 2^32 are diagnosed. -/
-theorem C14_int_literals (sflag : Bool) (n : Nat) (rest : Bytes) (hr : ∀ c, rest.head? = some c → isdigit c = false) :
-    let r := lex1 false sflag false ((toString n).toUTF8.toList ++ rest)
-    (n < 2 ^ 32 → r = { tok := .int n, rest := rest, errors := 0 }) ∧ (n ≥ 2 ^ 32 → r.errors ≥ 1 ∧ r.rest = rest) :=
-  Proofs.lex_int sflag n rest hr
+/-- Integer literals: for EVERY non-empty string of decimal digits `ds` - of any length, with or without
+leading zeros - after any white space and before anything that is not a digit, the lexer returns the
+value `Spec.decimal ds` exactly and without a diagnostic when it is at most UINT32_MAX, and reports a
+diagnostic otherwise; it is accepted IFF the value fits.  There is no length or value (2^64, 2^64 + 60,
+2^96, ...) at which a too-large literal becomes acceptable again; all digits are consumed either way. -/
+theorem C14_int_literals (sflag : Bool) (sp ds rest : Bytes) (hsp : ∀ x ∈ sp, isspace x = true) (hne : ds ≠ [])
+    (hd : ∀ d ∈ ds, isdigit d = true) (hr : ∀ c, rest.head? = some c → isdigit c = false) :
+    let r := lex1 false sflag false (sp ++ ds ++ rest)
+    (Spec.decimal ds < 2 ^ 32 → r = { tok := .int (Spec.decimal ds), rest := rest, errors := 0 }) ∧
+    (2 ^ 32 ≤ Spec.decimal ds → r.errors ≥ 1 ∧ r.rest = rest) ∧
+    (r.errors = 0 ↔ Spec.decimal ds < 2 ^ 32) :=
+  Proofs.lex_digits sflag sp ds rest hsp hne hd hr
+
+/-- `Spec.decimal` is the usual reading: the canonical decimal form of `n` denotes `n`, and leading zeros
+change nothing.  Hence the earlier form of the statement: the literal `n` reads back exactly below 2^32
+and is diagnosed from 2^32 on. -/
+theorem C14_int_literals_decimal (sflag : Bool) (n : Nat) (rest : Bytes) (hr : ∀ c, rest.head? = some c → isdigit c = false) :
+    Spec.decimal (toString n).toUTF8.toList = n ∧
+    (∀ k ds, Spec.decimal (List.replicate k 48 ++ ds) = Spec.decimal ds) ∧
+    (let r := lex1 false sflag false ((toString n).toUTF8.toList ++ rest)
+     (n < 2 ^ 32 → r = { tok := .int n, rest := rest, errors := 0 }) ∧ (n ≥ 2 ^ 32 → r.errors ≥ 1 ∧ r.rest = rest)) :=
+  ⟨Proofs.decimal_toString n, Proofs.decimal_leading_zeros, Proofs.lex_int sflag n rest hr⟩
+
+/-! Non-vacuity of `C14_int_literals`: `000060` is 60; 2^64 + 60, 2 * 2^64 + 3600 and 2^96 + 86400 (values a 64-bit
+accumulator would wrap to a valid age) are diagnosed, inside a whole file as well. -/
+example : lex1 false false false "  000060 s".toUTF8.toList = { tok := .int 60, rest := " s".toUTF8.toList, errors := 0 } := by
+  decide +kernel
+example : (lex1 false false false "18446744073709551676 seconds".toUTF8.toList).errors = 1 ∧
+    (lex1 false false false "36893488147419106832 seconds".toUTF8.toList).errors = 1 ∧
+    (lex1 false false false "79228162514264337593543950336 days".toUTF8.toList).errors = 1 := by decide +kernel
+example : parseConfig [] [] (fun _ => true) "maildir \"q\" { match date > 18446744073709551676 seconds break }".toUTF8.toList = .error 1 :=
+  Proofs.Conf.error_of_isErrorAt (by decide +kernel)
 
 /-! ## The parser (Model/Conf.lean: the grammar of parse.y with its semantic actions) -/
 
